@@ -12,6 +12,7 @@ import (
 	"google.golang.org/protobuf/reflect/protodesc"
 	"google.golang.org/protobuf/reflect/protoreflect"
 	"google.golang.org/protobuf/types/descriptorpb"
+	"google.golang.org/protobuf/types/known/structpb"
 	"google.golang.org/protobuf/types/known/timestamppb"
 	"google.golang.org/protobuf/types/pluginpb"
 )
@@ -46,6 +47,7 @@ func wellKnown() map[string]*descriptorpb.FileDescriptorProto {
 	}
 	add(descriptorpb.File_google_protobuf_descriptor_proto)
 	add(timestamppb.File_google_protobuf_timestamp_proto)
+	add(structpb.File_google_protobuf_struct_proto)
 	add(sebufhttp.File_proto_sebuf_http_annotations_proto)
 	add(sebufhttp.File_proto_sebuf_http_headers_proto)
 	add(sebufhttp.File_proto_sebuf_http_errors_proto)
@@ -62,6 +64,7 @@ const (
 	AnnotationsProto = "proto/sebuf/http/annotations.proto"
 	HeadersProto     = "proto/sebuf/http/headers.proto"
 	TimestampProto   = "google/protobuf/timestamp.proto"
+	StructProto      = "google/protobuf/struct.proto"
 	ValidateProto    = "buf/validate/validate.proto"
 )
 
@@ -248,6 +251,9 @@ func (m *Message) toProto(need func(string)) (*descriptorpb.DescriptorProto, err
 			fp.TypeName = proto.String(f.TypeName)
 			if f.TypeName == ".google.protobuf.Timestamp" {
 				need(TimestampProto)
+			}
+			if f.TypeName == ".google.protobuf.Value" || f.TypeName == ".google.protobuf.Struct" || f.TypeName == ".google.protobuf.ListValue" {
+				need(StructProto)
 			}
 		}
 		switch f.Card {
